@@ -334,10 +334,16 @@ var intervalPool = []int64{-int64(time.Second), 0, int64(time.Second), int64(10 
 func pick(rng *rand.Rand, v ...int64) int64 { return v[rng.Intn(len(v))] }
 
 func genHistory(rng *rand.Rand, maxSteps int) *history {
-	h := &history{}
+	var iv [5]int64
 	for t := 1; t <= 4; t++ {
-		h.Intervals[t] = intervalPool[rng.Intn(len(intervalPool))]
+		iv[t] = intervalPool[rng.Intn(len(intervalPool))]
 	}
+	return genHistoryWith(rng, maxSteps, iv)
+}
+
+// genHistoryWith draws a history for given per-type expiry intervals (any values: the aimed flushes use them).
+func genHistoryWith(rng *rand.Rand, maxSteps int, intervals [5]int64) *history {
+	h := &history{Intervals: intervals}
 	type sk struct{ typ, key int }
 	all := []sk{}
 	for t := 1; t <= 4; t++ {
@@ -443,16 +449,23 @@ func corpus() []*history {
 func TestCheck(t *testing.T) {
 	r := mon.Start(t, "C09")
 	defer r.Finish()
-	r.Rule("cases: histories of up to 40 steps (datapoint(type,key) at t | flush at t) over at most 6 series of the four types, non-decreasing virtual t with deltas from {0, 1ns, around 1s, around 10s, around 1h} and 30% of the flushes aimed at T+expiry+{-1ns,0,+1ns,+1s} of a live series; per-type expiry drawn independently from {-1s, 0, 1s, 10s, 1h}; the aggregator clock is set (VerifSetNow) to the virtual t before every step, datapoint timestamps are the virtual t; flush = Flush + Process(capture) + Reset on a real MetricAggregator. Oracle: per-series expiry automaton (present until the first flush later than T+expiry, forever for 0, one flush for negative) comparing the key set of every flushed map, the idle values (counter 0/0, set empty, timer count 0 / no values / no percentiles) and the gauge's last value. Plus a fixed corpus walking each (type, expiry) across its boundary. Non-trivial: a history in which at least one series expires and at least one re-appears after expiry; distinct by (sign pattern of the four expiries, set of boundary distances met: -1ns, eq, +1ns, <=1s, >1s, neg).")
+	r.Rule("cases: histories of up to 40 steps (datapoint(type,key) at t | flush at t) over at most 6 series of the four types, non-decreasing virtual t with deltas from {0, 1ns, around 1s, around 10s, around 1h} and 30% of the flushes aimed at T+expiry+{-1ns,0,+1ns,+1s} of a live series; per-type expiry drawn independently from {-1s, 0, 1s, 10s, 1h}; the aggregator clock is set (VerifSetNow) to the virtual t before every step, datapoint timestamps are the virtual t; flush = Flush + Process(capture) + Reset on a real MetricAggregator. Oracle: per-series expiry automaton (present until the first flush later than T+expiry, forever for 0, one flush for negative) comparing the key set of every flushed map, the idle values (counter 0/0, set empty, timer count 0 / no values / no percentiles) and the gauge's last value. Plus a fixed corpus walking each (type, expiry) across its boundary. Non-trivial: a history in which at least one series expires and at least one re-appears after expiry; distinct by (sign pattern of the four expiries, set of boundary distances met: -1ns, eq, +1ns, <=1s, >1s, neg). Configuration phase (shard 0): cmd/gostatsd of the tree under test is built with the verif tag and run about 550 times (GOSTATSD_VERIF_DUMP_SERVER=1 prints the constructed server and exits) over expiry-interval in {unset, 0, -1s, 1s, 10m} x per-type settings in {unset, 0, -1s, 30s} (none, each type alone, all four, random combinations; two spellings per value), given by command-line flag, GSD_ environment variable, TOML file, YAML file, or a different source per parameter; oracle = README precedence: own setting, else expiry-interval, else 5m (0 stays 0, negative stays negative); distinct by (source kind, which types are overridden, sign of expiry-interval). Twelve of the dumped interval tuples then drive 25 automaton histories each.")
 	r.Assume("datapoints at one instant for one gauge are unordered: either value is accepted as the last value")
 	c := &checker{r: r}
 
 	if p := r.ReplayPayload(); p != nil {
-		h, ok := mon.ReplayCase(p, &history{}).(*history)
-		if !ok || h == nil {
+		var rc struct {
+			history
+			Invocation *invocation `json:"invocation"`
+		}
+		if mon.ReplayCase(p, &rc) == nil || (rc.Invocation == nil && len(rc.Steps) == 0) {
 			t.Skip("no case in replay file")
 		}
-		c.eval(h)
+		if rc.Invocation != nil {
+			replayInvocation(t, r, rc.Invocation)
+		} else {
+			c.eval(&rc.history)
+		}
 		r.Nontrivial("replay-a")
 		r.Nontrivial("replay-b")
 		return
@@ -470,5 +483,7 @@ func TestCheck(t *testing.T) {
 			c.eval(h)
 		}
 		r.Event("boundary_corpus", len(cs))
+		// configuration phase: how flags, environment and configuration file are mapped onto the four intervals
+		configPhase(t, r, c)
 	}
 }
